@@ -187,7 +187,7 @@ func reverseP(v []gen.P) []gen.P {
 func drawRings(t *rapid.T, label string, c s2.Point, k, maxN int, rlimit float64) [][]gen.P {
 	x, y := frame(c)
 	lim := math.Min(rlimit, 70*math.Pi/180)
-	rout := logUniform(t, label+".lr", lim*1e-3, lim)
+	rout := logUniform(t, label+".lr", math.Max(lim*1e-3, math.Min(lim, 1e-9)), lim)
 	var rings [][]gen.P
 	for ring := 0; ring < k; ring++ {
 		n := rapid.IntRange(8, maxI(8, maxN)).Draw(t, label+".rn")
@@ -320,7 +320,11 @@ func drawIndex(t *rapid.T, label string, maxShapes, maxEdges int) indexCase {
 			centres = append(centres, gen.Base(t, fmt.Sprintf("%s.cb%d", label, k)))
 		}
 	}
-	spread := logUniform(t, label+".spread", 1e-6, spreadHi)
+	spreadLo := 1e-6
+	if placement == 0 {
+		spreadLo = 1e-9 // index cells down to the leaf level
+	}
+	spread := logUniform(t, label+".spread", spreadLo, spreadHi)
 	if placement >= 3 && placement <= 6 {
 		spread = logUniform(t, label+".spread2", 1e-3, spreadHi)
 	}
@@ -392,7 +396,36 @@ func drawProbe(t *rapid.T, label string, ic indexCase, verts []gen.P, antipodeOd
 		p = gen.Base(t, label+".base")
 	} else {
 		pick := func(l string) s2.Point { return verts[rapid.IntRange(0, len(verts)-1).Draw(t, label+l)].Pt() }
-		switch rapid.IntRange(0, 10).Draw(t, label+".pk") {
+		switch rapid.IntRange(0, 13).Draw(t, label+".pk") {
+		case 13:
+			// the pole of the great circle through one side of a cell that contains a
+			// vertex (± a little): exactly a quarter circle from that whole side
+			q := pick(".pi")
+			c := s2.CellFromCellID(s2.CellFromPoint(q).ID().Parent(rapid.IntRange(0, 30).Draw(t, label+".pl")))
+			k := rapid.IntRange(0, 3).Draw(t, label+".pk2")
+			n := c.Vertex(k).Cross(c.Vertex((k + 1) % 4).Vector)
+			if n.Norm2() == 0 {
+				p = q
+				break
+			}
+			p = s2.Point{Vector: n.Normalize()}
+			if rapid.Bool().Draw(t, label+".pneg") {
+				p = s2.Point{Vector: p.Mul(-1)}
+			}
+			if rapid.Bool().Draw(t, label+".pnoise") {
+				x, y := frame(p)
+				p = at(p, x, y, logUniform(t, label+".pd", 1e-16, 1e-6), rapid.Float64Range(0, 2*math.Pi).Draw(t, label+".paz"))
+			}
+		case 11:
+			// a quarter circle away from a vertex (± a little): distances next to π/2,
+			// where cell distances are hardest
+			q := pick(".qi")
+			x, y := frame(q)
+			d := rapid.SampledFrom([]float64{0, 0, 1e-15, -1e-15, 1e-9, -1e-9, 1e-6, -1e-6, 1e-3}).Draw(t, label+".qd")
+			p = at(q, x, y, math.Pi/2+d, rapid.Float64Range(0, 2*math.Pi).Draw(t, label+".qaz"))
+		case 12:
+			// an axis direction with tiny other components, perpendicular to much of the cube structure
+			p = gen.Spread(t, label+".spread")
 		case 0:
 			p = pick(".vi")
 		case 1, 2:
